@@ -59,6 +59,16 @@ def hop(fmt, ir, style="rest", emit_default_doc=False, type_annotations=True, kw
 
             text = cdd.docstring.emit.docstring(ir, docstring_format=style, word_wrap=False, emit_default_doc=True, emit_types=True)
             return cdd.docstring.parse.docstring(text, emit_default_doc=False)
+        if fmt == "json_schema":
+            import cdd.json_schema.emit
+            import cdd.json_schema.parse
+
+            schema = cdd.json_schema.emit.json_schema(ir)
+            if REPLAYING():
+                import json
+
+                schema = json.loads(json.dumps(schema))
+            return cdd.json_schema.parse.json_schema(schema)
     raise ValueError(fmt)
 
 
@@ -70,4 +80,6 @@ FORMAT_FUNCS = {
     "argparse": ["cdd.argparse_function.emit.argparse_function", "cdd.argparse_function.parse.argparse_ast",
                  "cdd.shared.ast_utils.param2argparse_param", "cdd.argparse_function.utils.emit_utils.parse_out_param"],
     "docstring": ["cdd.docstring.emit.docstring", "cdd.docstring.parse.docstring"],
+    "json_schema": ["cdd.json_schema.emit.json_schema", "cdd.json_schema.parse.json_schema", "cdd.json_schema.utils.emit_utils.param2json_schema_property",
+                    "cdd.json_schema.utils.parse_utils.json_schema_property_to_param"],
 }
